@@ -239,6 +239,12 @@ def ACC():
         'v': (['Quaternion', 'UnitQuaternion'], lambda x: x.v),
         'vec': (['Quaternion', 'UnitQuaternion'], lambda x: x.vec),
         'unit': (['Quaternion', 'UnitQuaternion'], lambda x: x.unit()),
+        # conversions to another class: one converted value per value held
+        'to.UnitQuaternion': (P3, lambda x: S().UnitQuaternion(x)), 'to.SO3': (['UnitQuaternion'], lambda x: x.SO3()),
+        'to.SE3': (['UnitQuaternion', 'SE2'], lambda x: x.SE3()), 'to.SE2': (['SO2'], lambda x: x.SE2()),
+        'to.Twist': (['SE2', 'SE3'], lambda x: x.Twist3() if type(x).__name__ == 'SE3' else x.Twist2()),
+        'to.SO3.from_SE3': (['SE3'], lambda x: S().SO3(x)), 'to.SO2.from_SE2': (['SE2'], lambda x: S().SO2(x)),
+        'Ad': (['SE3'], lambda x: x.Ad()), 'jacob': (['SE3'], lambda x: x.jacob()),
         # twists: every per-value member documented on the Twist classes
         'tw.S': (TW, lambda x: x.S), 'tw.v': (TW, lambda x: x.v), 'tw.w': (TW, lambda x: x.w), 'tw.unit': (TW, lambda x: x.unit),
         'tw.isunit': (TW, lambda x: x.isunit), 'tw.isprismatic': (TW, lambda x: x.isprismatic), 'tw.isrevolute': (TW, lambda x: x.isrevolute),
